@@ -373,14 +373,15 @@ pub fn gen_c19(rng: &mut Rng, thorough: bool) -> History {
     em.finish(0, variant, 2_000_000_000, format!("c19 faults={}", faults))
 }
 
-fn expected_rgba(px: &[u32]) -> (Vec<u8>, Vec<bool>) {
+fn expected_rgba(px: &[u32]) -> (Vec<u8>, Vec<[bool; 4]>) {
     let mut out = Vec::with_capacity(px.len() * 4);
     let mut defined = Vec::with_capacity(px.len());
     for p in px {
         let a = p >> 24;
         let (mut r, mut g, mut b) = ((p >> 16) & 0xff, (p >> 8) & 0xff, p & 0xff);
-        // floor(c*255/a) is only representable when c <= a
-        defined.push(a == 0 || (r <= a && g <= a && b <= a));
+        // floor(c*255/a) is only representable when c <= a: channel by channel (a channel above
+        // its alpha says nothing about the others, and alpha is always defined)
+        defined.push([a == 0 || r <= a, a == 0 || g <= a, a == 0 || b <= a, true]);
         if a > 0 {
             r = r * 255 / a;
             g = g * 255 / a;
@@ -417,7 +418,7 @@ fn check_png_file(file: &Option<Vec<u8>>, px: &[u32], w: i32, h: i32) -> Result<
         return Err(format!("decoded {} bytes, expected {}", data.len(), exp.len()));
     }
     for i in 0..px.len() {
-        if defined[i] && data[4 * i..4 * i + 4] != exp[4 * i..4 * i + 4] {
+        if (0..4).any(|c| defined[i][c] && data[4 * i + c] != exp[4 * i + c]) {
             return Err(format!(
                 "pixel ({},{}) word {:08x}: file has RGBA {:?}, expected {:?}",
                 i as i32 % w,
